@@ -680,7 +680,7 @@ func (g *gen) nilOperand(fx *fctx, pre *[]*Stmt) *Expr {
 	}
 }
 
-var faultKinds = []string{"index", "index", "arith", "arith", "call", "call", "cmp", "concat", "error", "error", "error2", "store", "forcheck", "gencall", "method"}
+var faultKinds = []string{"index", "index", "arith", "arith", "call", "call", "cmp", "concat", "error", "error", "error2", "store", "forcheck", "gencall", "method", "badarg"}
 
 func (g *gen) faultAction(fx *fctx, kind string, scen int, depth int) []*Stmt {
 	var pre []*Stmt
@@ -741,6 +741,18 @@ func (g *gen) faultAction(fx *fctx, kind string, scen int, depth int) []*Stmt {
 	case "method":
 		isCall = true
 		node = method(name("T"), "none", num(1))
+	case "badarg": // a library function rejects its argument: the position is the calling statement's
+		isCall = true
+		switch g.r.Intn(4) {
+		case 0:
+			node = call(name("ipairs"), N())
+		case 1:
+			node = call(index(name("string"), "rep"), N())
+		case 2:
+			node = method(paren(str("\"s\"")), "rep", N())
+		default:
+			node = call(index(name("math"), "floor"), str("\"x\""))
+		}
 	case "cmp":
 		switch g.r.Intn(4) {
 		case 0:
